@@ -17,6 +17,7 @@ var verifHooks struct {
 	pick            func(idx, n int) int
 	coin            func(threshold float64) (accept bool, ok bool)
 	yield           func(point string, p peer.ID)
+	pickPeer        func(ids []peer.ID) int
 }
 
 func verifShufflePeers(l []peer.ID) bool {
@@ -58,4 +59,22 @@ func verifYield(point string, p peer.ID) {
 	if f := verifHooks.yield; f != nil {
 		f(point, p)
 	}
+}
+
+// verifPickPeer lets the harness choose which pending entry of a peer-event log
+// is handed out next (the library takes whichever key map iteration yields first).
+func verifPickPeer(m map[peer.ID]EventType) (peer.ID, bool) {
+	f := verifHooks.pickPeer
+	if f == nil || len(m) == 0 {
+		return "", false
+	}
+	ids := make([]peer.ID, 0, len(m))
+	for id := range m {
+		ids = append(ids, id)
+	}
+	i := f(ids)
+	if i < 0 || i >= len(ids) {
+		return "", false
+	}
+	return ids[i], true
 }
